@@ -40,8 +40,13 @@ out = ["## 8. Which checks catch which changes (as built)", "",
 "| change | property | what it does (first line of the agent's note) | first pass | caught now by |",
 "|---|---|---|---|---|"] + rows + [""]
 n_now = sum(1 for r in rows if "**missed**" not in r)
+n_own = 0
+for f in sorted(glob.glob(os.path.join(R, "seeded", "C*", "meta.json"))):
+    m = json.load(open(f))
+    if m["breaks_property"] in m["caught_by"]:
+        n_own += 1
 n_p1 = sum(1 for v in pass1.values() if v[0] == "CAUGHT")
-out += [f"First pass: {n_p1} of {len(pass1)} caught. Now: {n_now} of {len(rows)} caught by the check of the property they break.", ""]
+out += [f"First pass: {n_p1} of {len(pass1)} caught. Now: {n_now} of {len(rows)} caught, {n_own} of them by the check of the property the agent was given (the others by the check of a neighbouring property that states the same behaviour).", ""]
 out += ["What the misses of the first pass had in common, and what was added (section 4 describes the workloads as they are now):", "",
 "* **state that survives between evaluations of one expression site** (regex compiled once per site; method cell cached on the AST node; shared true/false/null cells; shared key buffer): workloads evaluated every site once. Added: operator functions `opf<i>(l, r)` so that one site sees a whole batch of operand pairs, and a batch whose members agree alone but not in sequence is itself a violation (C05); recursion re-entering a method call site (C15); nested for-in over two multi-key objects, directly and through a function (C07); disturber programs that store into cells obtained from literals, and numeric-looking object keys whose numeric and string orders disagree (C10).",
 "* **values that are null by absence rather than by literal** (missing member, index past the end: they carry the speculative-creation bookkeeping): added as operands (C05), as call arguments whose parameter the callee assigns (C08, C09), as loop-variable sources (C09).",
